@@ -335,4 +335,5 @@ vp_proof! {
 // parent's samples to the two children, children one level below the parent, depth bookkeeping, undo of a split that violates
 // min_samples_leaf) was built and run for n = 2 (regressor) and n = 3, 4 (classifier): every instance exceeded 45 GB - split()
 // searches both children again and queues visitors in a LinkedList.  The hooks stay in /repo (add-only, unused); routing and depth
-// bookkeeping remain outside the claim, which is why the seeded change C05-2 is missed.
+// bookkeeping remain outside the claim, which is why the seeded change C05-2 is missed.  A later attempt with fully CONCRETE data
+// (n = 8, both children impure) and only the node's level symbolic (any u16) did not finish either: 480 s per harness, no verdict.
